@@ -41,7 +41,7 @@ TouchOpen(bx, path) == \E i \in 2..(Len(path) - 1) : OnBoxBoundary(bx, path[i]) 
 OutersOK(bx, in) == \A i \in 1..Len(in) : Len(in[i]) >= 1 => OuterOK(bx, in[i][1])
 SmartOk(e, WAIVE) ==
    /\ (OutersOK(e.box, e.in) => Shape(e.box, e.out, e.o))
-   /\ e.pstable = 1                                            \* the previous call's result was left alone
+   /\ e.pstable = 1     \* the previous result was left alone (and a generic call of which nothing remains answered nil)
    /\ (AllInside(e.box, e.in) => e.out = e.in)
    /\ (~InDomain(e.box, e.in) \/ (WAIVE /\ TouchFailProne(e.box, e.in, e.o)) \/ RegionOK(e.box, e.in, e.out, e.st))
    /\ (OutsideAll(e.box, e.in) => e.out = <<>>)              \* wholly outside yields nothing
